@@ -224,7 +224,8 @@ def run_c08(tier, seed):
     oc.extra['static_tables'] = 'tag_class_map (16 entries, order) and the roElementAction table (10 entries) read from the source with ast match the Lean tables; exception hierarchy as assumed' if not probs else probs
     for pr in probs:
         oc.disagreements.append({'kind': 'static', 'what': 'static comparison of the classification tables / exception hierarchy', 'problem': pr})
-    oc.exhaustive = True
+    oc.exhaustive = False
+    oc.extra['exhaustive_part'] = 'the roElementAction shape space and the message-element x payload x envelope grid are enumerated completely; fuzzed documents are samples'
     oc.extra['warning_filters'] = ['ignore', 'default', 'error']
     oc.extra['sources'] = ['str', 'bytes (utf-8, iso-8859-1, utf-16)', 'file']
     oc.rule = ('15 message elements x 5 payload shapes x 6 envelopes; the complete roElementAction space 9 operations x 7 '
